@@ -1174,7 +1174,7 @@ class Interp:
                     return list(base.values())
                 if m == "get":
                     k = args[0]
-                    if isinstance(k, (str, int)) or (isinstance(k, tuple) and k and k[0] == "id"):
+                    if isinstance(k, (str, int)) or (isinstance(k, tuple) and k and k[0] == "id") or _hashable_key(k):
                         return base.get(k, args[1] if len(args) > 1 else None)
                     return TOP
                 if m == "copy":
